@@ -234,4 +234,4 @@ def run(v, tier, seed, replay):
         "decode_spec_outcomes": kinds, "correspondence_mismatches": len(mism), "oracle_failures": len(oracle_fail),
     }
     v.assumptions = ["C12 does not say whether a leading '+' is a hexadecimal number; Rust's from_str_radix accepts it, the model reproduces that, the oracle accepts either answer for such fields (D13)",
-                     "serde is exercised through serde_json only"]
+                     "serde is exercised through serde_json only (from_str = borrowed, from_value = owned, from_reader = transient strings)"]
